@@ -84,6 +84,12 @@ CHECKS = {
         text="PROVED (thin lemmas, all strings): quote, unquote and code_quoted meet exact functional contracts; unquote(quote(s)) == s for non-empty unquoted s; quote(quote(s)) == quote(s). "
              "BOUNDED only — this is where the property itself is decided, and only within the bound: pi(parse(emit(ir, style, flags))) == pi'(ir) on the real emitter/parser over the docstring-representable slice of IR(n) x 3 styles x emit_default_doc x emit_types, plus a ReST word-wrap sweep. Five known-finding classes on the pinned tree (None default, Google/NumPy return type, NumPy without types, negative int without types).",
         note="No contract within reach of the engine carries the scanners/parsers (_scan_phase_*, _parse_phase_*, extract_default: casefold comparisons, literal_eval, ~600 lines of index arithmetic); the bounded part is a stand-in, not a proof."),
+    "C02": dict(
+        category="other", design_ref="DESIGN.md §5 C02",
+        technique="contract-based deductive verification of a block contract on function.parse's defaults padding (E1: access paths through getattr/setattr, Seq views, z3); run-time round-trip contract over IR(n) for the property itself",
+        text="PROVED (lemma, all signatures): after the padding block of function.parse every positional and keyword-only parameter has a default slot and the real defaults remain aligned with the LAST parameters (padding in front), the parameter lists untouched. "
+             "BOUNDED only — the property itself: pi(parse_f(reparse(to_code(emit_f(ir))))) == norm_f(pi(ir)) with the documented normalisations, over IR(n) x {class, pydantic, function x annotations x kw-only, argparse} x 3 styles x emit_default_doc. Ten known-finding classes on the pinned tree (argparse invents/drops defaults and collapses types; NumPy/Google docstrings inside emitted code lose descriptions; None default; negative int).",
+        note="The zip-alignment lemma for function.emit promised in DESIGN was not carried (map/lambda pairs over the same tuple: outside the engine's subset)."),
 }
 
 NA_REASON = "check not built yet (work in progress; see DESIGN.md for the plan)"
